@@ -9,7 +9,6 @@ import (
 
 // features filled in by later tiers
 
-func (e *Engine) execGo(st *State, fr *Frame, g *ssa.Go) { panic(unsupported("go statement")) }
 
 func (e *Engine) checkSharedWrite(st *State, fr *Frame, loc *Loc, pos string) {
 	e.sharedAccess(st, fr, loc, true, pos)
